@@ -99,6 +99,15 @@ META = {
         rule="run = one tape: (role, negotiation, flavour reader/ping, per call: kind, cancellation mode and delay, idle time, message size, fragmentation, interleaved pings; terminal kind; chunk policies; schedule). Non-trivial = every run; distinct = distinct event-log SHA-256.",
         real=REAL, stub=STUB + RAW, assumptions=COMMON_ASSUME,
     ),
+    "C18": dict(
+        level="exploration",
+        level_text="Seeded simulation of the net.Conn adapter in three scenario families: (A) two real endpoints wrapped by NetConn exchanging drawn sequences of Write sizes (0..70 000, boundary-biased) against drawn Read buffer sizes (1..70 000) in both directions under all compression modes and transport chunkings, ended by a normal Close; (B/C) one endpoint against a scripted raw peer that ends with Close 1000/1001 (io.EOF, repeatably), other codes, a transport cut, or a message of the wrong type (Close 1003 expected at the peer); (D) deadline programs on the fake clock: deadlines in the past/future/zero set while idle, slept past, reported by the next Read/Write as deadline errors without closing anything, reset (zero or far future) and followed by a full round trip; and deadlines that fire while the simulator holds a Read (nothing sent) or Write (peer not draining) blocked, which must fail within 1 s and close the connection. Sampling, not proof.",
+        level_note="Idle and active deadlines are kept unambiguous (the actor sleeps past an idle deadline; the transport holds an active call until after its deadline); the documented race of a call issued at the instant a past deadline's timer is due is not generated.",
+        technique="deterministic simulation: fake clock + simulated transport + scripted peer, byte-stream reference model and deadline state model",
+        design_ref="DESIGN.md 6 C18",
+        rule="run = one tape: scenario family; (A) modes, message type, write sizes per direction, read buffer sizes, pipe knobs, who closes; (B/C) role, ending kind and code, messages with fragmentation, read buffer; (D) role, 1-6 steps from {round trip, idle read/write/both deadline with duration -1h..30s and reset kind, future deadline} and a terminal {none, active read, active write} with 1 ms..10 s. Non-trivial = every run; distinct = distinct event-log SHA-256.",
+        real=REAL + ["NetConn adapter"], stub=STUB + RAW, assumptions=COMMON_ASSUME,
+    ),
 }
 
 NOT_APPLICABLE = [
